@@ -102,6 +102,14 @@ def run(tier):
     rb = vlib.tlc("WireWrite", cfg="WB.cfg", files={"WB.cfg": cfgb}, workers=1, timeout=300)
     if not rb.violated:
         raise vlib.Infra("non-vacuity: WireWrite without mutex not refuted")
+    # the retrying client's task goroutine, its wake-up channel and Disconnect: everything under c.mu (RetryStop.tla);
+    # the code before fix F20 and the seeded change c10g are refuted (NoRace / NoSendOnClosed)
+    rscfg = open(os.path.join(vlib.SPEC, "RetryStop.cfg")).read().replace('Apps = {"a1", "a2"}', 'Apps = {"a1", "a2", "a3"}')
+    rs = vlib.tlc_ok(vlib.tlc("RetryStop", cfg="RS.cfg", files={"RS.cfg": rscfg}, workers=4, timeout=300), "RetryStop model")
+    for sw in ("BugChTaskOutsideLock", "BugSendOutsideLock"):
+        rsb = vlib.tlc("RetryStop", cfg="RSB.cfg", files={"RSB.cfg": rscfg.replace("%s = FALSE" % sw, "%s = TRUE" % sw)}, workers=1, timeout=300)
+        if rsb.violated not in ("NoRace", "NoSendOnClosed"):
+            raise vlib.Infra("non-vacuity: RetryStop with %s not refuted (%s)" % (sw, rsb.violated))
     # wire half on the real code
     scs = wire_scenarios(tier, rng)
     byid = {s["id"]: s for s in scs}
@@ -189,7 +197,8 @@ def run(tier):
                     verd.witness(kind, "", msg, {"scenario": x.get("id"), "crash": x["crash"][-3000:]})
     rc = verd.finish()
     vlib.write_evidence(PID, tier, "model_checking", {
-        "states": r.states, "transitions": r.generated, "traces_validated_against_impl": len(results),
+        "states": r.states + rs.states, "transitions": r.generated + rs.generated, "traces_validated_against_impl": len(results),
+        "retry_stop_model_states": rs.states,
         "wire_runs": len(results), "race_detector_runs": race_runs, "race_reports": races,
         "evaluations": len(results) + race_runs, "distinct_nontrivial": len({json.dumps(s["callers"]) for s in scs}),
         "rule": "3-8 concurrent callers with 2-5 operations each over {publish q0, publish q1, publish q2, subscribe, unsubscribe, ping}, 0-4 inbound QoS1+QoS2 messages, chunk size 1-3, optional concurrent Err/Done/Stats/Handle callers; acknowledgement bursts and abandoned requests (C07 scripts) under the race detector; the race detector runs the same compositions and reconnect scenarios with Handle/sample calls",
